@@ -56,8 +56,12 @@ def main():
     n_prog = 160 if quick else 1500
     cap = 24 if quick else 64
     progs = []
-    for it in range(n_prog):
-        prog = G.gen_prog(rng)
+    import json
+    from common import VERIF
+    corpus = [G.prog_from_sx(json.loads(pth.read_text())["prog"]) for pth in sorted((VERIF / "corpus" / "C14").glob("*.json"))]
+    run.count("corpus.cases", len(corpus))
+    for it in range(n_prog + len(corpus)):
+        prog = corpus[it] if it < len(corpus) else G.gen_prog(rng)
         envs = [G.gen_env(rng, prog, "good"), G.gen_env(rng, prog, rng.choice(["good", "missing", "all"]))]
         outk = []
         for k in G.all_outs(prog):
@@ -86,7 +90,7 @@ def main():
         run.count("prog.overwrites", len([k for k in G.all_outs(prog) if k != G.SINK]) != len({k for k in G.all_outs(prog) if k != G.SINK}))
         container = "dict" if pi % 3 == 0 else "list"
         run.count("prog.container", container)
-        with time_limit(30):
+        with time_limit(90):
             seq = G.build_seq(prog, container)
         # in_keys / out_keys
         m_keys = parse_sx(next(answers))
@@ -102,7 +106,7 @@ def main():
             td = G.make_input(e)
             before = {k: v for k, v in td.items(True, True)}
             try:
-                with time_limit(30):
+                with time_limit(90):
                     out = seq(td)
                 impl = G.td_items(out)
             except TimeoutError:
@@ -131,7 +135,7 @@ def main():
         # oracle: the advertised in_keys are sufficient and determine the outputs
         if all(G.SINK not in m["ins"] for m in prog):
             try:
-                with time_limit(30):
+                with time_limit(90):
                     r1 = seq(G.make_input(list(seq.in_keys)))
                     noise = [k for k in G.UNIVERSE if k not in seq.in_keys]
                     td2 = G.make_input(list(seq.in_keys))
@@ -152,8 +156,16 @@ def main():
         # selections
         def do_select(ik, ok):
             try:
-                with time_limit(30):
+                with time_limit(90):
                     sub = seq.select_subsequence(in_keys=None if ik is None else list(ik), out_keys=None if ok is None else list(ok))
+                if container == "dict":
+                    # a ModuleDict-based sequence keeps the names of the retained modules
+                    names = list(sub.module.keys())
+                    want = [f"layer{i}" for i in G.kept_fids(sub)]
+                    if names != want:
+                        run.oracle_fail("select_names", [psx, str(ik), str(ok)], f"retained modules {want} are registered as {names}", "select_names")
+                    else:
+                        run.oracle_ok("select_names")
                 return sub, ["ok"] + G.kept_fids(sub)
             except ValueError:
                 return None, ["err"]
@@ -166,7 +178,7 @@ def main():
             if sub is not None and finals:
                 e, full = finals[0]
                 try:
-                    with time_limit(30):
+                    with time_limit(90):
                         r = sub(G.make_input(e))
                     bad = [k for k in s if k != G.SINK and int(r.get(k).item()) != int(full.get(k).item())]
                 except TimeoutError:
@@ -190,7 +202,7 @@ def main():
                 for k in present:
                     td.set(k, full.get(k))
                 try:
-                    with time_limit(30):
+                    with time_limit(90):
                         r = sub(td)
                     bad = [k for k in sub.out_keys if k != G.SINK and int(r.get(k).item()) != int(full.get(k).item())]
                 except TimeoutError:
